@@ -28,7 +28,9 @@ pub fn gen_world(seed: u64, idx: u64, s: &dyn SuiteOps) -> World {
     let long = g.bytes(150);
     let mut long2 = long.clone();
     *long2.last_mut().unwrap() ^= 1;
-    let creds: Vec<Vec<u8>> = vec![b"alice".to_vec(), b"bob".to_vec(), long, long2, b"alice ".to_vec()];
+    // two identifiers made of the same 128-byte segments in opposite order
+    let (seg_a, seg_b) = (g.bytes(128), g.bytes(128));
+    let creds: Vec<Vec<u8>> = vec![b"alice".to_vec(), b"bob".to_vec(), long, long2, b"alice ".to_vec(), [&seg_a[..], &seg_b[..]].concat(), [&seg_b[..], &seg_a[..]].concat()];
     let mut ksf = gen_ksf(&mut g, fam, true);
     // a fifth of the SimKsf worlds stretch with an instance that ignores its input
     if fam == crate::suite::KsfFamily::Sim && idx % 5 == 3 {
@@ -46,6 +48,8 @@ pub fn gen_world(seed: u64, idx: u64, s: &dyn SuiteOps) -> World {
         (setup, &pw_a, 2, true),  // long id
         (setup, &pw_a, 3, true),  // long id differing in the last byte, same tape
         (setup, &pw_a, 4, true),  // whitespace twin
+        (setup, &pw_a, 5, true),  // long id of two 128-byte segments
+        (setup, &pw_a, 6, true),  // the same segments in opposite order, same tape
         (setup2, &pw_a, 0, true), // another server, same tape
     ];
     let mut threads = vec![];
